@@ -1,7 +1,8 @@
 #!/usr/bin/env python3
 """Confirm and keep a seeded change produced by an independent sub-agent.
 
-usage: tools/collect_seed.py <PROP> <k> [--props P1,P2]   (reads /tmp/wt/<PROP>/seeded/{change,demo,meta}<k>.*)
+usage: tools/collect_seed.py <PROP> <k> [--props P1,P2] [--src DIR] [--as NEWK] [--overwrite]
+       (reads <src or /tmp/wt/<PROP>/seeded>/{change,demo,meta}<k>.*; stores as seeded/<PROP>-<NEWK or k>)
 
 Steps (all in a scratch worktree of /repo under /tmp, removed afterwards; /repo itself is only patched
 for the duration of the check run and restored with `git checkout -- .`):
@@ -32,6 +33,9 @@ def main():
     if "--props" in sys.argv:
         props = sys.argv[sys.argv.index("--props") + 1].split(",")
     src = f"/tmp/wt/{prop}/seeded"
+    if "--src" in sys.argv:
+        src = sys.argv[sys.argv.index("--src") + 1]
+    newk = sys.argv[sys.argv.index("--as") + 1] if "--as" in sys.argv else k
     patch, demo, meta = f"{src}/change{k}.diff", f"{src}/demo{k}.py", f"{src}/meta{k}.json"
     info = json.load(open(meta)) if os.path.exists(meta) else {}
     wt = tempfile.mkdtemp(prefix="seedchk_", dir="/tmp")
@@ -70,14 +74,17 @@ def main():
     rec["checks"] = det
     rec["detected"] = any(d["exit"] == 1 and d["violations"] for d in det.values())
     rec["what_was_run"] = [f"git -C /repo apply patch.diff; ./vcheck run {p} --tier quick; git -C /repo checkout -- ." for p in props]
-    dst = os.path.join(VERIF, "seeded", f"{prop}-{k}")
+    dst = os.path.join(VERIF, "seeded", f"{prop}-{newk}")
+    if os.path.exists(dst) and "--overwrite" not in sys.argv:
+        print(f"{dst} exists; use --as <k> or --overwrite")
+        return 2
     os.makedirs(dst, exist_ok=True)
     shutil.copy(patch, f"{dst}/patch.diff")
     shutil.copy(demo, f"{dst}/demo.py")
     rec["breaks"] = info.get("what_it_breaks", "")
     rec["needs_to_manifest"] = info.get("needs_to_manifest", "")
     json.dump(rec, open(f"{dst}/meta.json", "w"), indent=1)
-    print(f"{prop}-{k}: confirmed={confirmed} detected={rec['detected']} " +
+    print(f"{prop}-{newk}: confirmed={confirmed} detected={rec['detected']} " +
           " ".join(f"{p}:exit{d['exit']}/viol{d['violations']}" for p, d in det.items()))
     return 0
 
